@@ -14,8 +14,8 @@
 (* the JSON round trip unchanged), not text:                               *)
 (*   [kind |-> "constraint", label, key]                                   *)
 (*   [kind |-> "write", src |-> Source, w |-> Write, ret |-> <<RetItem>>]  *)
-(* Source  none | match (n) | match2 (n),(m) | matchrel (n)-[r:t]->(m)     *)
-(*         | unwind <<v1..vk>> AS x                                        *)
+(* Source  none | match (n) | matchwith (n) WITH n | match2 (n),(m)        *)
+(*         | matchrel (n)-[r:t]->(m) | unwind <<v1..vk>> AS x              *)
 (* Write   create | createrel | merge (ON CREATE / ON MATCH SET) | set     *)
 (*         (property, += map, label) | remove (property, label) | delete   *)
 (*         (node / relationship, DETACH)                                   *)
@@ -26,7 +26,8 @@
 (* clause is applied row after row to the evolving graph, so MERGE sees    *)
 (* what earlier rows of the same statement created; SET evaluates all its  *)
 (* right-hand sides before it assigns; DELETE of a node that still has     *)
-(* relationships is an error unless DETACH; any error (evaluation error,   *)
+(* relationships is an error unless DETACH; a null value in a MERGE        *)
+(* pattern is an error; any error (evaluation error,                       *)
 (* unique-constraint violation, connected DELETE) fails the WHOLE          *)
 (* statement: Stmt leaves G unchanged (C05).  RETURN is evaluated on the   *)
 (* graph after the write clause.                                           *)
@@ -139,7 +140,7 @@ RowLess(a, b) == \/ a.n < b.n
 
 RowSet(g, src) ==
     CASE src.kind = "none" -> {EmptyRow}
-      [] src.kind = "match" -> {[EmptyRow EXCEPT !.n = i] : i \in {j \in NodeIds : Matches(g, j, src.n)}}
+      [] src.kind \in {"match", "matchwith"} -> {[EmptyRow EXCEPT !.n = i] : i \in {j \in NodeIds : Matches(g, j, src.n)}}
       [] src.kind = "match2" ->
             {[EmptyRow EXCEPT !.n = ij[1], !.m = ij[2]] :
                 ij \in {y \in NodeIds \X NodeIds : Matches(g, y[1], src.n) /\ Matches(g, y[2], src.m)}}
@@ -155,11 +156,8 @@ RowSet(g, src) ==
 \* do not depend on it)
 RowTables(g, src) ==
     IF src.kind = "unwind" THEN {[j \in DOMAIN src.list |-> [EmptyRow EXCEPT !.x = src.list[j]]]}
-    ELSE IF src.kind = "match" THEN SetToSeqs(RowSet(g, src))
+    ELSE IF src.kind \in {"match", "matchwith"} THEN SetToSeqs(RowSet(g, src))
     ELSE {SetToSortSeq(RowSet(g, src), RowLess)}
-CanonicalRows(g, src) ==
-    IF src.kind = "unwind" THEN [j \in DOMAIN src.list |-> [EmptyRow EXCEPT !.x = src.list[j]]]
-    ELSE SetToSortSeq(RowSet(g, src), RowLess)
 
 \* ------------------------------------------------------------------ write clause, one row
 \* every operator below maps a graph to [err, g, out]: out = the rows the clause passes on
@@ -293,7 +291,7 @@ Injections(S, T) == {f \in [S -> T] : \A a, b \in S : a # b => f[a] # f[b]}
 RelContent(g, e, s(_)) == <<s(g.rels[e].src), s(g.rels[e].dst), g.rels[e].type, g.rels[e].props>>
 Id(i) == i
 \* g1 (computed) and g2 (given) agree up to a renaming of the entities that did not exist in g0
-Iso(g1, g2, g0) ==
+IsoSearch(g1, g2, g0) ==
     LET oldN == LiveN(g0)
         oldE == LiveE(g0)
         N1 == LiveN(g1) \ oldN
@@ -314,6 +312,10 @@ Iso(g1, g2, g0) ==
              /\ \A e \in E1 : Cardinality({f \in E1 : RelContent(g1, f, s) = RelContent(g1, e, s)})
                                = Cardinality({f \in E2 : RelContent(g2, f, Id) = RelContent(g1, e, s)})
 
+Iso(g1, g2, g0) ==
+    \/ g1 = g2                                  \* same ids (the common case): no search
+    \/ IsoSearch(g1, g2, g0)
+
 \* ------------------------------------------------------------------ ideal actions
 \* err = what the caller was told; Gn = the graph afterwards (ids of new entities as the implementation chose them);
 \* rows = the row table the source clause produced (one of RowTables)
@@ -328,29 +330,30 @@ CreateConstraint(st, err, Gn) ==
     /\ Gn = IF err THEN G ELSE [G EXCEPT !.cons = @ \cup {ConsName(st.label, st.key)}]
     /\ G' = Gn
 
+\* r = Exec(G, st, rows), computed once by the caller
+StmtR(r, err, Gn) ==
+    /\ err = r.err
+    /\ IF r.err THEN Gn = G ELSE Iso(r.g, Gn, G)
+    /\ G' = Gn
 Stmt(st, rows, err, Gn) ==
     /\ st.kind = "write"
     /\ rows \in RowTables(G, st.src)
-    /\ LET r == Exec(G, st, rows) IN
-       /\ err = r.err
-       /\ IF r.err THEN Gn = G ELSE Iso(r.g, Gn, G)
-    /\ G' = Gn
-\* the rows a successful statement returns (a bag; compared by the trace specification)
-StmtRows(st, rows) == Exec(G, st, rows).rows
+    /\ StmtR(Exec(G, st, rows), err, Gn)
 
 \* ------------------------------------------------------------------ named deviations
 \* KF_C05_RowByRowApply: the executor streams rows through the mutating operators and applies each
 \* row as it arrives (MutQueryExecutor::execute_plan_mut); there is no statement-level undo, so when
 \* row `at` fails the statement returns the error and the effects of rows 1..at-1 stay - exactly
 \* those: the failing row itself and the rows after it leave nothing.
+KF_C05_RowByRowApplyR(r, err, Gn) ==
+    /\ r.err /\ err
+    /\ r.at > 1 /\ r.g # G                  \* only differs from the ideal action then
+    /\ Iso(r.g, Gn, G)
+    /\ G' = Gn
 KF_C05_RowByRowApply(st, rows, err, Gn) ==
     /\ st.kind = "write"
     /\ rows \in RowTables(G, st.src)
-    /\ LET r == Exec(G, st, rows) IN
-       /\ r.err /\ err
-       /\ r.at > 1 /\ r.g # G                  \* only differs from the ideal action then
-       /\ Iso(r.g, Gn, G)
-    /\ G' = Gn
+    /\ KF_C05_RowByRowApplyR(Exec(G, st, rows), err, Gn)
 
 \* ------------------------------------------------------------------ design-level properties
 TypeOK ==
